@@ -15,6 +15,7 @@ mod expect;
 mod foreign;
 mod gen_dom;
 mod gen_value;
+mod miri;
 mod report;
 mod rng;
 mod rot;
@@ -105,6 +106,7 @@ fn main() {
         "c15" => c15::main(&a),
         "c16" => c16::main(&a),
         "c17" => c17::main(&a),
+        "miri" => miri::main(&a),
         "c06" => c06::main(&a),
         "c07" => c07::main(&a),
         "c08" => c08::main(&a),
